@@ -60,6 +60,71 @@ class Pipe:
 
 
 def vlm_states(surfaces, stub_kernels=True, rotational=False, upto=None):
+    """The aerodynamic states of the given surfaces, executed through the *real* AeroPoint group's own wiring
+    (RealStates); SYMOAS_REPLICA_STATES=1 falls back to a hand-listed component sequence (for comparison only)."""
+    import os
+
+    if os.environ.get("SYMOAS_REPLICA_STATES", "0") == "1":
+        return vlm_states_replica(surfaces, stub_kernels=stub_kernels, rotational=rotational, upto=upto)
+    return RealStates(surfaces, stub_kernels=stub_kernels, rotational=rotational)
+
+
+class RealStates:
+    """Same interface as Pipe (run(given, units) -> namespace by short names) but the components, their options and the
+    connections between them are those the real AeroPoint group sets up for these surfaces."""
+
+    def __init__(self, surfaces, stub_kernels=True, rotational=False, compressible=False):
+        from props import groups
+
+        self.surfaces = surfaces
+        self.rotational = rotational
+        self.stub = stub_kernels
+        self.prob = groups.aeropoint_problem(surfaces, rotational=rotational, compressible=compressible)
+        self.root = "aero_point_0"
+        self.last = None
+
+    def encode(self, rep):
+        from .kernels import EVAL_MTX_STUBS
+
+        GroupPipe(self.prob, root=self.root, extra=EVAL_MTX_STUBS if self.stub else None, skip_contains=("_perf.", ".total_perf.")).encode(rep)
+
+    def run(self, given, units=None, assumptions=(), prefix=""):
+        from .kernels import EVAL_MTX_STUBS
+
+        units = dict(units or {})
+        G = GroupPipe(self.prob, root=self.root, extra=EVAL_MTX_STUBS if self.stub else None, skip_contains=("_perf.", ".total_perf."))
+        ivc_units = {"alpha": "deg", "beta": "deg", "v": "m/s", "rho": "kg/m**3", "Mach_number": None, "re": "1/m", "cg": "m", "omega": "rad/s"}
+        ext, states = {}, {}
+        for k, v in given.items():
+            a = np.asarray(v, dtype=object)
+            if k == "circulations":
+                states[self.root + ".aero_states.solve_matrix.circulations"] = a
+                continue
+            if k in ivc_units and k in units:
+                a = np.asarray(_conv(a, units[k], ivc_units[k]), dtype=object)
+            for key in (k, self.root + "." + k, self.root + ".aero_states." + k):
+                ext[key] = a
+        G.run(external=ext, states=states, assumptions=assumptions)
+        self.last = G
+        ns = {}
+        pre = self.root + ".aero_states."
+        for absn, val in G.vals.items():
+            if absn.startswith(pre):
+                ns[absn.rsplit(".", 1)[-1]] = val
+            elif absn.startswith(self.root + "."):
+                rest = absn[len(self.root) + 1:]
+                if rest.count(".") == 1:  # <surface>.<geometry output>
+                    sname, out = rest.split(".")
+                    ns["%s_%s" % (sname, out)] = val
+        for absn, val in G.resid.items():
+            ns["residual:" + absn.rsplit(".", 1)[-1]] = val
+        for k, v in given.items():
+            ns.setdefault(k, np.asarray(v, dtype=object))
+        free = {k: v for k, v in G.vals.items() if k.startswith("flight.") or k.startswith("_auto_ivc")}
+        return ns, free
+
+
+def vlm_states_replica(surfaces, stub_kernels=True, rotational=False, upto=None):
     """The component sequence of VLMStates (without the linear solve: circulations are an input)."""
     from .kernels import EVAL_MTX_STUBS
 
@@ -97,7 +162,7 @@ class GroupPipe:
     src_indices), so that the wiring itself is part of what is verified.  Implicit components contribute their
     residuals; their states are fresh symbols (or given).  IndepVarComp / auto-IVC outputs are the external inputs."""
 
-    def __init__(self, prob, root="", extra=None, skip=(), assume_for=None, abstract=()):
+    def __init__(self, prob, root="", extra=None, skip=(), assume_for=None, abstract=(), skip_contains=()):
         import openmdao.api as om
 
         self.prob = prob
@@ -111,7 +176,8 @@ class GroupPipe:
         top = prob.model if not root else prob.model._get_subsystem(root)
         self.leaves = []
         for s in top.system_iter(recurse=True, include_self=False):
-            if isinstance(s, (om.ExplicitComponent, om.ImplicitComponent)) and not any(s.pathname.endswith(k) for k in skip):
+            if isinstance(s, (om.ExplicitComponent, om.ImplicitComponent)) and not any(s.pathname.endswith(k) for k in skip) \
+                    and not any(k in s.pathname + "." for k in skip_contains):
                 self.leaves.append(s)
         self.conn = dict(prob.model._conn_global_abs_in2out)
         self.meta_in = prob.model._var_allprocs_abs2meta["input"]
